@@ -309,6 +309,12 @@ def test_metric(case, note):
             if v is not None:
                 cm.close(f"{k}:{tag}", v / (d4[a] * d4[b_]), r.g4h[a, b_],
                          (1 + r.b**2) if a == b_ else r.b, kap=1.0)
+        # proper-time rate of observers at fixed coordinates:
+        # (d tau / dt)^2 = |g_tt|
+        dtt = get(rel_, note, "dttau")
+        if dtt is not None:
+            cm.close(f"dttau:{tag}", dtt**2 / (d4[0] * d4[0]),
+                     np.abs(r.g4h[0, 0]), 1 + r.b**2, kap=1.0)
 
     if case["g4first"]:
         g4 = get(rel, note, "gdown4")
